@@ -44,8 +44,7 @@ FLIP = {"==": "==", "!=": "!=", "<": ">", ">": "<", "<=": ">=", ">=": "<="}
 MUTATORS = {"append", "extend", "update", "add", "clear", "pop", "remove", "insert", "discard", "popleft", "sort",
             "reverse", "setdefault", "put_nowait", "merge"}
 VIEW_FUNCS = {"memoryview", "bytes", "bytearray"}
-# documented constants of the libraries the package uses (trusted base)
-LIBRARY_CONSTANTS = {"Crypto.Cipher.AES.block_size": 16, "hashlib.md5.digest_size": 16, "hashlib.sha256.digest_size": 32}
+from .model import LIBRARY_CONSTANTS  # noqa: E402  (documented constants of the libraries the package uses)
 
 
 def const(v):
@@ -749,6 +748,11 @@ class TermAnalysis(Analysis):
                     return const(v)
                 except Exception:
                     pass
+            # integer arithmetic spellings of bit operations: n // 2^k is n >> k, n % 2^k is n & (2^k - 1), n * 2^k is n << k (all ints)
+            if op in ("//", "%", "*") and is_const(b) and isinstance(b[1], int) and not isinstance(b[1], bool) and b[1] > 1 and (b[1] & (b[1] - 1)) == 0 \
+                    and _integer_valued_loose(a):
+                k_ = b[1].bit_length() - 1
+                return ("bin", ">>", a, const(k_)) if op == "//" else (("bin", "&", a, const(b[1] - 1)) if op == "%" else ("bin", "<<", a, const(k_)))
             return ("bin", op, a, b)
         if isinstance(e, ast.UnaryOp):
             a = self.ev(e.operand, st)
@@ -1123,6 +1127,22 @@ def _integer_valued(t) -> bool:
         return _integer_valued(t0[2]) and _integer_valued(t0[3])
     if t0[0] == "ite":
         return _integer_valued(t0[2]) and _integer_valued(t0[3])
+    return False
+
+
+def _integer_valued_loose(t) -> bool:
+    """integer by construction, or a single element read of a buffer / a name bound to one (bytes elements are ints)"""
+    if _integer_valued(t):
+        return True
+    t0 = t
+    while t0[0] == "call" and t0[1][0] == "ext" and t0[1][1] in ("typing.cast", "cast") and len(t0[2]) == 2:
+        t0 = t0[2][1]
+    if t0[0] == "sub" and not (t0[1][0] in ("dict",)):
+        return True
+    if t0[0] == "bin" and t0[1] in ("&", "|", "^", "<<", ">>", "+", "-"):
+        return _integer_valued_loose(t0[2]) and _integer_valued_loose(t0[3])
+    if t0[0] == "item" and t0[1][0] == "iter":
+        return False
     return False
 
 
